@@ -37,11 +37,18 @@ pub fn alphabet() -> Vec<Op> {
         // inverted: an empty clip (everything under it, layers included, is a no-op)
         Op::PushClipRect(5, 4, 1, 1),
         Op::PushClip(tri),
-        Op::PushClip(ring),
+        Op::PushClip(ring.clone()),
+        // the same ops under the other winding rule (anything keyed on the ops alone shows), a
+        // path that covers the whole surface (an inner clip that clips nothing), and a clip
+        // rectangle lying beside the surface on one axis only
+        Op::PushClip(PathSpec { evenodd: false, ops: ring.ops.clone() }),
+        Op::PushClip(PathSpec::rect(-2.0, -1.0, wf + 4.0, hf + 3.0)),
+        Op::PushClipRect(W + 1, 1, W + 5, 4),
         Op::PopClip,
         Op::PushLayer(0.5, BlendMode::SrcOver),
         Op::PushLayer(1.0, BlendMode::Multiply),
         Op::PushLayer(0.75, BlendMode::Src),
+        Op::PushLayer(0.0, BlendMode::SrcOver),
         Op::PopLayer,
         Op::SetTransform(IDENT),
         Op::SetTransform([1., 0., 0., 1., 0.5, 0.25]),
@@ -172,7 +179,7 @@ pub fn eval_mixed<F: Fn(&StepViolation) -> bool>(scene: &Scene, owns: &F, isolat
 pub fn explore_mixed<F: Fn(&StepViolation) -> bool + Sync>(run: &Run, prop: &str, owns: F, depth: usize, isolated: bool) {
     let alpha = alphabet();
     let na = alpha.len();
-    run.bound("mixed histories", format!("all well-formed call sequences of length 1..={} over a mixed alphabet of {} calls (9 draws of different kinds / modes / sources, 5 clip pushes (one empty), pop_clip, 3 layer pushes, pop_layer, 4 transforms (one singular); the two stacks are independent), auto-closed, on {}x{}; step oracle under the model's clip{}", depth, na, W, H, if isolated { " + isolated-surface machine" } else { "" }));
+    run.bound("mixed histories", format!("all well-formed call sequences of length 1..={} (at full length the last call is a draw or a pop) over a mixed alphabet of {} calls (9 draws of different kinds / modes / sources, 8 clip pushes (one empty, one beside the surface, one path under both winding rules, one path covering everything), pop_clip, 4 layer pushes (one with opacity 0), pop_layer, 4 transforms (one singular); the two stacks are independent), auto-closed, on {}x{}; step oracle under the model's clip{}", depth, na, W, H, if isolated { " + isolated-surface machine" } else { "" }));
     let _ = prop;
     run.par(na * na, |s, l| {
         fn rec<F: Fn(&StepViolation) -> bool + Sync>(run: &Run, s: usize, l: &mut Local, alpha: &[Op], seq: &mut Vec<Op>, depth: usize, owns: &F, isolated: bool) {
@@ -203,6 +210,12 @@ pub fn explore_mixed<F: Fn(&StepViolation) -> bool + Sync>(run: &Run, prop: &str
             }
             for op in alpha {
                 if !enabled(seq, op) {
+                    continue;
+                }
+                // at the depth bound the last call is a draw or a pop: a push or set_transform in
+                // last position is followed by the closing pops only and adds no transition that the
+                // shorter sequences do not have already
+                if seq.len() + 1 == depth && depth >= 4 && matches!(op, Op::PushClip(_) | Op::PushClipRect(..) | Op::PushLayer(..) | Op::SetTransform(_)) {
                     continue;
                 }
                 seq.push(op.clone());
